@@ -743,3 +743,15 @@ def _check_passthrough_regs(r, idx, fn, dvar):
             r.require(_is_pass_through(idx, fn, t), fn, fn.loc(reg.call),
                       "%s: callback %s on the write Deferred does not return its argument, so the publisher never sees the "
                       "server's (wrote, read_data) answer" % (short(fn), src(fn, t)))
+
+
+# -- surprise detection (shared with C12) -----------------------------------------------------------------
+# "A successful publish" presupposes that no unexpected version was met: the surprise flag must be sticky
+# over all shares of all responses and compare whole checkstrings (C12.4), and the answer must reach
+# _got_write_answer unchanged (C12.5).
+_run_publish_recoverable = run
+
+
+def run(ctx: Context):   # noqa: F811
+    _run_publish_recoverable(ctx)
+    ctx.include("C12", ["C12.4", "C12.5"], "C47.9")
